@@ -19,6 +19,7 @@ CASE_TIMEOUT = 60
 TIERS = {'quick': (300000, 150), 'thorough': (4000000, 1800)}
 PROBES = ['rendered_before_with_other_parameters', 'guard_refused_element',
           'sized_iterable_producer', 'false_reverse_expr',
+          'rendered_again_from_the_body',
           'previous_batches_evaluated', 'unbounded_rendered', 'fault_fired', 'window_past_end',
           'lookahead_probe_reached', 'else_rendered', 'prev_lookback_overpull',
           'lazyseq_len_called', 'start_beyond_stream', 'prev_flag', 'next_flag',
@@ -283,6 +284,13 @@ def gen_case(seed, tier):
     if byname and 'overlap' not in case['params'] and r.random() < 0.4:
         case['pre'] = {p: max(case['params'][p][1], 0) + r.randint(3, 9)
                        for p in byname}
+    # ... or while this one is at its first item (re-entrant render of the
+    # same template object, from the body)
+    case['reenter'] = None
+    rr = core.stream(seed, 'c12reenter')
+    if byname and 'overlap' not in case['params'] and rr.random() < 0.3:
+        case['reenter'] = {p: max(case['params'][p][1], 0) + rr.randint(3, 9)
+                           for p in byname}
     # no_push_item, and a body that names the sequence again (a nested loop
     # over the same lazily produced sequence): the elements are still pulled
     # once only
@@ -375,6 +383,10 @@ def source_of(case):
                 ' no_push_item' if case['renest'] == 'npi' else '',
                 ' skip_unauthorized' if case.get('guard') and
                 case['guard']['skip'] else '')
+    if case.get('reenter'):
+        # the body sends off another request for the same template object
+        # (a page that embeds its own "larger" view) at the first item
+        body = '<dtml-call again>' + body
     src = '<dtml-in %s>%s' % (' '.join(a), body)
     if case['else']:
         src += '<dtml-else>EMPTY'
@@ -477,6 +489,29 @@ def run_case(case):
             except BaseException:
                 pass
             probe('rendered_before_with_other_parameters')
+        if case.get('reenter'):
+            state = {'busy': False, 'done': False}
+
+            def again():
+                if not state['busy'] and not state['done']:
+                    state['busy'] = state['done'] = True
+                    c1 = Counter(None if pr['n'] is None else max(pr['n'],
+                                                                  40),
+                                 None, 10 ** 6)
+                    ns1 = dict(ns)
+                    ns1['seq'] = ns1['seq2'] = gen(c1, mk)
+                    ns1['again'] = lambda: ''
+                    for p_, v_ in case['reenter'].items():
+                        ns1['v_' + p_] = v_
+                    try:
+                        t(None, ns1)
+                    except BaseException:   # noqa: B902  (not this render)
+                        pass
+                    finally:
+                        state['busy'] = False
+                    probe('rendered_again_from_the_body')
+                return ''
+            ns['again'] = again
         out = t(None, ns)
         if not isinstance(out, str):
             out = repr(out)
